@@ -28,6 +28,7 @@ EXPLANATION = (
     "releases it). Paths are explored with facts for the repo's correlated guards (same flag, `v is not None`, isinstance on the "
     "argument); a release under a constant-false flag is no release. A2: between a non-activating get_inactive_register() and its "
     "protecting use no call that can reach an allocation. A3: the pool enumerates 2**REG_INDEX_BITS registers of bank R."
+    ' C14.A4: no use of a register after its release. C14.Z: no truthiness test on an int-typed value in the memory manager and futures.'
 )
 LEVEL_TEXT = (
     "Static analysis, full for the leak clause: every acquire site (floor 25) is proven released or transferred on all normal "
